@@ -62,7 +62,12 @@ Record c16case := mkCase {
   (* the decoy client (k_nav = 3): its records and the index the debugger derived from them; it shares
      the main client's schema *)
   k_msgs2 : list msg;
-  o_parsed2 : list parsed
+  o_parsed2 : list parsed;
+  o_txidx2 : list (nat * Z);  (* TxIndex of the decoy client, every id, at the end *)
+  (* live sessions: ScrollToTx by id issued BETWEEN two ClientMsg batches for an id no record of the
+     selected (main) client had at that moment: (id, number of main records received so far, snapshot
+     before, snapshot after) *)
+  o_early : list (nat * nat * nav_obs * nav_obs)
 }.
 
 (* the same case seen from the decoy: its records take the place of the main
@@ -71,7 +76,7 @@ Definition k_decoy (k : c16case) : c16case :=
   mkCase (k_machine k) (k_n k) (k_errst k) (k_health k) (k_init k) (k_truth k) (k_msgs2 k) (o_parsed2 k)
          (o_errors k) (o_mtime k) (o_qtick k) (o_htime k) (o_mtimeq k) (o_txidx k) (k_dists k) (o_haderr k)
          (k_fset k) (o_fidx k) (k_nav k) (o_nav0 k) (o_nav k) (d_stored k) (k_reimp k) (d_re_msgs k)
-         (d_re_parsed k) (o_re_errors k) (k_msgs k) (o_parsed k).
+         (d_re_parsed k) (o_re_errors k) (k_msgs k) (o_parsed k) (o_txidx2 k) (o_early k).
 
 Definition k_of (k : c16case) (who : bool) : c16case := if who then k_decoy k else k.
 
@@ -237,6 +242,17 @@ Fixpoint nav2_mismatch (k : c16case) (prev : nav_obs) (st : nav2_st) (l : list (
   | (c, o) :: r => nav2_mismatch_one k prev st c o ++ nav2_mismatch k o (nav2_next k prev st c o) r
   end.
 
+(* an early jump by id: the model looks the id up in the records received so
+   far; not found = refused, nothing changes *)
+Definition early_same (a b : nav_obs) : bool :=
+  Z.eqb (no_cursor a) (no_cursor b) && lnat_eqb (no_filtered a) (no_filtered b)
+  && Nat.eqb (no_sel a) (no_sel b).
+
+Definition early_mismatch (k : c16case) : bool :=
+  existsb (fun e => let '(id, n, a, b) := e in
+                    Z.eqb (tx_index (firstn n (k_msgs k)) id) (-1) && negb (early_same a b))
+          (o_early k).
+
 Definition mismatch (k : c16case) : list N :=
   let '(ps, errs, mt) := model_parse k in
   ((if list_eqb parsed_eqb (o_parsed k) ps then [] else [1]) ++
@@ -245,7 +261,8 @@ Definition mismatch (k : c16case) : list N :=
   (if all_ok (fun q r => Z.eqb r (tx_at_queue_tick (k_msgs k) q)) (o_qtick k) then [] else [4]) ++
   (if all_ok (fun q r => Z.eqb r (tx_at_htime (k_msgs k) q)) (o_htime k) then [] else [5]) ++
   (if all_ok (fun q r => Z.eqb r (tx_at_mach_time (o_parsed k) q)) (o_mtimeq k) then [] else [6]) ++
-  (if all_ok (fun q r => Z.eqb r (tx_index (k_msgs k) q)) (o_txidx k) then [] else [7]) ++
+  (if all_ok (fun q r => Z.eqb r (tx_index (k_msgs k) q)) (o_txidx k)
+      && all_ok (fun q r => Z.eqb r (tx_index (k_msgs2 k) q)) (o_txidx2 k) then [] else [7]) ++
   (if all_ok (fun tx row => list_eqb Bool.eqb row
                                (map (had_err_since (o_errors k) tx) (k_dists k))) (o_haderr k)
    then [] else [8]) ++
@@ -253,6 +270,7 @@ Definition mismatch (k : c16case) : list N :=
   (if N.eqb (k_nav k) 0 then [] else
      (if N.eqb (no_err (o_nav0 k)) 3 || lnat_eqb (no_filtered (o_nav0 k)) (nav0_filtered k)
       then [] else [10]) ++
+     (if early_mismatch k then [15] else []) ++
      (if N.eqb (k_nav k) 3 then
         (if Nat.eqb (no_sel (o_nav0 k)) 0 then [] else [12]) ++
         nav2_mismatch k (o_nav0 k) (nav2_init k) (o_nav k)
@@ -306,6 +324,15 @@ Definition err_codes (k : c16case) (prev cur : nav_obs) : list N :=
   else if N.eqb (no_err cur) 3 then (if cls3 then [650%N] else [65%N])
   else if N.eqb (no_err cur) 1 && cls then [640%N] else [64%N].
 
+(* a jump by id (ScrollToTx{TxId}) against the linear scan over the records *)
+Definition jump_codes (k : c16case) (prev : nav_obs) (c : nav_cmd) (o : nav_obs) : list N :=
+  match c with
+  | NScrollId id =>
+    if N.eqb (no_err o) 3 then []
+    else id_jump_codes (no_active o) (no_filtered prev) (k_msgs k) id (no_cursor prev) (no_cursor o)
+  | _ => []
+  end.
+
 (* live: the list was (partly) built message by message. A refilter
    recomputes it, after which it is an ordinary list again. *)
 Fixpoint nav_codes (k : c16case) (live : bool) (prev : nav_obs) (l : list (nav_cmd * nav_obs)) : list N :=
@@ -315,6 +342,7 @@ Fixpoint nav_codes (k : c16case) (live : bool) (prev : nav_obs) (l : list (nav_c
     let live' := match c with NRefilter => live && negb (no_active o) | _ => live end in
     err_codes k prev o ++
     (if N.eqb (no_err o) 3 then [] else filtered_codes k live' o ++ shown_codes k live' o) ++
+    jump_codes k prev c o ++
     (match c, r with
      | NFwd a, (NBack b, o2) :: _ =>
        if Z.leb a 1 && Z.leb b 1
@@ -366,6 +394,7 @@ Fixpoint nav2_codes (k : c16case) (prev : nav_obs) (st : nav2_st) (l : list (nav
              | None => []
              end)
      else filtered_codes ks (n_live st') o ++ shown_codes ks (n_live st') o) ++
+    (match c with NC c' => jump_codes kp prev c' o | NSelect _ => [] end) ++
     (match c, r with
      | NC (NFwd a), (NC (NBack b), o2) :: _ =>
        if Z.leb a 1 && Z.leb b 1
@@ -407,7 +436,15 @@ Definition violations (k : c16case) : list N :=
                  if Z.eqb (snd qr) s then []
                  else if Z.eqb s (-1) && Z.eqb (snd qr) 0 then [33] else [32]) (o_mtimeq k)
    else []) ++
-  (if all_ok (fun q r => Z.eqb r (tx_index_scan ms q)) (o_txidx k) then [] else [34]) ++
+  flat_map (fun qr =>
+              if Z.eqb (snd qr) (tx_index_scan ms (fst qr)) then []
+              else if Z.eqb (snd qr) (-1)
+                      && existsb (fun e => Nat.eqb (fst (fst (fst e))) (fst qr)) (o_early k)
+                   then [341] else [34]) (o_txidx k) ++
+  (if all_ok (fun q r => Z.eqb r (tx_index_scan (k_msgs2 k) q)) (o_txidx2 k) then [] else [34]) ++
+  flat_map (fun e => let '(id, n, a, b) := e in
+                     if Z.eqb (tx_index_scan (firstn n ms) id) (-1) && negb (Z.eqb (no_cursor a) (no_cursor b))
+                     then [71] else []) (o_early k) ++
   (if desc_sorted (o_errors k) then
      (if all_ok (fun tx row => list_eqb Bool.eqb row
                                  (map (had_err_scan (o_errors k) tx) (k_dists k))) (o_haderr k)
